@@ -220,7 +220,9 @@ class RawMeshData:
         nce = len(self.cell_faces._elem)
         nca = len(self.cell_faces._adj)
         if nca==0 or nce==0:
-            # cell faces were not generated completely
+            # cell faces were not generated completely : rebuild both the face and the owner cell of every record
+            self.cell_faces._elem = []
+            self.cell_faces._adj = []
 
             face_id = dict() # first invert face indirection
             for iF,F in enumerate(self.faces):
@@ -246,8 +248,7 @@ class RawMeshData:
                     ]
                 for face in faces_C:
                     self.cell_faces._elem.append(face_id[utils.keyify(face)])
-                    if nca!=0: 
-                        self.cell_faces._adj.append(iC)
+                    self.cell_faces._adj.append(iC)
 
     def _complete_edges_from_faces(self):
         if self.faces.empty() : return # nothing to do
